@@ -101,7 +101,7 @@ def run(module, cfg_text, *, env=None, workers=NCPU, timeout=600, simulate=None,
         for name, text in (extra_files or {}).items():
             with open(os.path.join(d, name), "w") as fh:
                 fh.write(text)
-        jopts = ["-XX:+UseParallelGC", "-Xss512m"] + (java_opts or [])
+        jopts = ["-XX:+UseParallelGC", "-Xss512m", f"-Djava.io.tmpdir={d}"] + (java_opts or [])      # TLC leaves an empty tlc-* dir per run in tmpdir
         if dfs:
             jopts.append("-Dtlc2.tool.queue.IStateQueue=StateDeque")
         cmd = ["timeout", "-k", "5", str(int(timeout)), "java"] + jopts + ["-cp", JAR + ":" + DEPS, "tlc2.TLC",
